@@ -308,6 +308,13 @@ impl Check for C13 {
         gp.n_files = 2 + ((i / setups.len() as u64) % 5) as usize; // 2..6
         gp.n_cmds = gp.n_cmds.max(gp.n_files);
         gp.n_types = gp.n_types.max(2);
+        if i % 4 == 3 {
+            // dense worlds: many emitting functions in few files, so that items of one
+            // file interact if any per-item state leaks into the next item
+            gp.n_files = 2 + (i as usize / 4) % 2;
+            gp.n_events = 6;
+            gp.n_cmds = gp.n_cmds.max(5);
+        }
         let mut mr = r.split("model");
         let mut model = gen_model(&mut mr, &gp);
         let mut flags = vec![];
